@@ -1,11 +1,13 @@
 #!/bin/bash
-# usage: tools_verify_mutant.sh <worktree>  — worktree has the change applied in src/ and MUTANT/{patch.diff,demo.rs}
+# usage: tools_verify_mutant.sh <worktree>  — worktree has MUTANT/{patch.diff,demo*.rs}; the change is (re)applied from patch.diff
 W=$1; cd $W || exit 2
+git checkout -q -- src 2>/dev/null; git clean -fdq src
+if ! git apply MUTANT/patch.diff; then echo "PATCH DOES NOT APPLY"; exit 3; fi
 echo "== (a) suite with change"; cargo test --offline --lib --test integration_test 2>&1 | grep -E "^test result|^test .* FAILED" 
 for d in MUTANT/*.rs; do cp $d tests/demo_mutant_$(basename $d); done
 echo "== (b) demo with change"; cargo test --offline $(for d in MUTANT/*.rs; do echo --test demo_mutant_$(basename $d .rs); done) 2>&1 | grep -E "^test result|^test .* FAILED|error(\[|:)" | head -20
-git stash -q -- src
+git checkout -q -- src; git clean -fdq src
 echo "== (c) demo without change"; cargo test --offline $(for d in MUTANT/*.rs; do echo --test demo_mutant_$(basename $d .rs); done) 2>&1 | grep -E "^test result|^test .* FAILED|error(\[|:)" | head -20
-git stash pop -q
+git apply MUTANT/patch.diff
 rm -f tests/demo_mutant_*.rs
 git status --short | head
